@@ -161,13 +161,35 @@ class Worker:
         self.got_task = False
         self.outcome = None
 
+    again = None  # (when, message): an answer that is delivered a second time
+
     def next_time(self, now):
-        return self.at if self.state in ('idle', 'working') else None
+        ts = [self.at] if self.state in ('idle', 'working') else []
+        if self.again is not None:
+            ts.append(self.again[0])
+        return min(ts) if ts else None
 
     def enabled(self, now):
+        out = []
         if self.state in ('idle', 'working') and self.at <= now + 1e-12:
-            return [(f'w{self.idx}.{self.state}', self.act)]
-        return []
+            out.append((f'w{self.idx}.{self.state}', self.act))
+        if self.again is not None and self.again[0] <= now + 1e-12:
+            out.append((f'w{self.idx}.reply_again', self.send_again))
+        return out
+
+    def send_again(self):
+        _when, msg = self.again
+        self.again = None
+        if not self.w.cfg['faults']:
+            return  # the liveness phase runs without faults
+        try:
+            ep = MsgEndpoint(self.sim, pipeenv.FARM_PORT, lambda _m: None, host=self.host)
+        except ConnectionRefusedError:
+            return
+        self.w.op(f'w{self.idx}: the answer for {msg.jobid}[{msg.incarnation or ALL}] run={msg.runid} is delivered a second time')
+        self.w.probes['reply_delivered_twice'] += 1
+        ep.send(msg)
+        ep.close()
 
     def act(self):
         if self.state == 'idle':
@@ -294,6 +316,10 @@ class Worker:
         w.on_reply_sent(self, m, outcome, values)
         ep.send(msg)
         ep.close()
+        if w.cfg['faults'] and ch.flip('w.reply_again', 1, 12):
+            # the same answer is delivered once more later (a retried delivery): it belongs to no execution in flight
+            w.sim.count('fault.reply_delivered_twice')
+            self.again = (self.sim.now + [1.0, 10.0, 40.0, 150.0][ch.choose('w.reply_again_after', 4)], msg)
         self.task = None
         self.state = 'idle'
         self.at = self.sim.now + ch.choose('w.rest', 3) * 0.5
@@ -531,6 +557,7 @@ class PipeWorld:
         self.sim.after_step.append(self.after_step)
         self.active_at_step_start = False
         self.in_reply = self.reply_fault = False
+        self.answered = set()
         import dawgie
         import dawgie.db
 
@@ -1011,6 +1038,7 @@ class PipeWorld:
         nchron = len(self.chron)
         escaped = None
         self.in_reply, self.reply_fault = True, False
+        backlog = [(m.jobid, m.target if m.target else ALL, m.runid) for lst in (farm._cluster, farm._cloud) for m in lst]
         try:
             self.real['_res'](msg)
         except Exception as e:  # noqa  (judged like any other outcome, then handed on to the reactor as the real code would see it)
@@ -1019,7 +1047,32 @@ class PipeWorld:
             self.op(f'exception escaped the handling of the reply: {e!r}')
         finally:
             self.in_reply = False
+        started = (msg.timing or {}).get('started')
+        if started is not None and started in self.answered:
+            # the same answer a second time: it belongs to no execution in flight and must change nothing
+            self.probes['duplicate_reply_judged'] += 1
+            after, _qa = self.snap()
+            if len(self.chron) != nchron or after != before:
+                changed = sorted(k for k in after if after[k] != before.get(k))
+                self.violate('C03', 'duplicate_result_applied', 'second_delivery',
+                             f'the answer of {alg}[{t}] run={msg.runid} was delivered a second time and was applied again: history entries '
+                             f'{self.chron[nchron:]}, scheduler state of {changed} changed (an execution of it now in flight loses its result or runs twice)')
+                # the run goes on: what follows from it (a dependent released while the real execution is still with a
+                # worker, a result dropped) is what the other properties see of the same defect
+            if escaped is not None:
+                raise escaped
+            return
+        if started is not None:
+            self.answered.add(started)
         try:
+            if msg.success is not True:
+                # C05 frame condition, farm side: released units waiting for a worker are executing work too
+                left = [(m.jobid, m.target if m.target else ALL, m.runid) for lst in (farm._cluster, farm._cloud) for m in lst]
+                gone = [u for u in backlog if u not in left]
+                if gone:
+                    self.violate('C05', 'released_unit_dropped_by_failure', self.ref.kind.get(gone[0][0], '?'),
+                                 f'{alg}[{t}] {"failure" if msg.success is False else "invalid"}: released units {gone} waiting for a worker '
+                                 f'disappeared from the farm (they stay marked as executing and never run)')
             self.judge_reply(msg, unit, alg, t, stale, current, before, qb, nchron)
         finally:
             if escaped is not None:
